@@ -110,14 +110,15 @@ func NewEncryptedISO(f afero.File, data1 []byte, clearRegions bool) (*EncryptedI
 	var prevRegionEnd uint32
 	encryptedRegions := make([]region, hdr.Count-1)
 	for i, unencryptedRegion := range unencryptedRegions {
-		// some sanity checks: region "borders" must increase monotonically
-		if unencryptedRegion.End <= unencryptedRegion.Start {
+		// some sanity checks: region "borders" must increase monotonically,
+		// region is described by its first and last sector (so one-sector region has start = end)
+		if unencryptedRegion.End < unencryptedRegion.Start {
 			return nil, fmt.Errorf("region %d: end (%#x) less than start (%#x)",
 				i, unencryptedRegion.End, unencryptedRegion.Start)
 		}
-		if unencryptedRegion.Start < prevRegionEnd {
-			return nil, fmt.Errorf("region %d: start (%#x) less than previous region end (%#x)",
-				i, unencryptedRegion.End, prevRegionEnd)
+		if i > 0 && unencryptedRegion.Start <= prevRegionEnd {
+			return nil, fmt.Errorf("region %d: start (%#x) not after previous region end (%#x)",
+				i, unencryptedRegion.Start, prevRegionEnd)
 		}
 		prevRegionEnd = unencryptedRegion.End
 
@@ -125,9 +126,10 @@ func NewEncryptedISO(f afero.File, data1 []byte, clearRegions bool) (*EncryptedI
 			continue
 		}
 
-		// encrypted region placed between previous unencrypted region and current unencrypted region
+		// encrypted region placed between previous unencrypted region and current unencrypted region:
+		// from the sector after the last unencrypted one to the sector before the first unencrypted one
 		encryptedRegions = append(encryptedRegions, region{
-			start: sizeSectors(unencryptedRegions[i-1].End),
+			start: sizeSectors(unencryptedRegions[i-1].End) + 1,
 			end:   sizeSectors(unencryptedRegion.Start),
 		})
 	}
@@ -171,7 +173,7 @@ func (e *EncryptedISO) ReadAt(b []byte, off int64) (int, error) {
 	}
 
 	// sector numbers are 32-bit, so nothing can be stored further
-	if maxEnd := sizeSectors(math.MaxInt32).bytes(); sizeBytes(off) > maxEnd-sizeBytes(len(b)) {
+	if maxEnd := (sizeSectors(math.MaxUint32) + 1).bytes(); sizeBytes(off) > maxEnd-sizeBytes(len(b)) {
 		return 0, io.EOF
 	}
 
